@@ -41,24 +41,32 @@ AutoMethod(o, p) == IF ~HasCons(p) THEN "L-BFGS-B" ELSE IF ObjDeg(o) > 2 THEN "t
 Spellings == {"scalar", "vector"}         \* scalar Variables and products | VectorVariable, quadratic_form, a @ x
 ConForms  == {"ge", "le_neg", "const_minus"}   \* lhs >= b | -lhs <= -b | b - lhs <= 0   (the same relation)
 ObjForms  == {"plain", "const_minus"}          \* f (resp. -f) | 3 - (-f) (resp. 3 - f)  (the same argmin)
+\* optional arguments of solve(): none | use_hessian=False, tol=t | x0=v, maxiter=k
+OptForms  == {"default", "nohess_tol", "x0_maxiter"}
 Structs == {s \in [n : 2..3, obj : ObjClasses, cons : ConPatterns, order : Orders, sense : Senses, m : Methods, bp : BoundPairs,
-                   spell : Spellings, cform : ConForms, oform : ObjForms] :
+                   spell : Spellings, cform : ConForms, oform : ObjForms, others : {"box", "free", "ub"}, opts : OptForms] :
               /\ (~HasCons(s.cons) => s.cform = "ge") /\ (s.cons = "eq" => s.cform = "ge")
               /\ (s.spell = "vector" => s.order = "natural")
               /\ (s.m = "L-BFGS-B" => ~HasCons(s.cons))
-              /\ (s.cons = "bounds_active" => ~IsNoneQ(s.bp[2]))}
+              /\ (s.cons = "bounds_active" => ~IsNoneQ(s.bp[2]))
+              \* the option variants are crossed with one spelling / form of the rest (they are independent pass-throughs)
+              /\ (s.opts # "default" => s.spell = "scalar" /\ s.order = "natural" /\ s.cform = "ge" /\ s.oform = "plain")}
 
 Wire(s) ==
     LET meth == IF s.m = "auto" THEN AutoMethod(s.obj, s.cons) ELSE s.m IN
     [method    |-> meth,
      has_jac   |-> meth \notin DerivFree,
-     has_hess  |-> meth \in HessianMethods,
+     has_hess  |-> meth \in HessianMethods /\ s.opts # "nohess_tol",     \* use_hessian=False: no Hessian is handed over (nor compiled)
+     tol_passed |-> s.opts = "nohess_tol",            \* tol reaches the solver iff the caller gave one
+     maxiter_passed |-> s.opts = "x0_maxiter",        \* options = {maxiter: k} iff the caller gave one
+     x0_caller |-> s.opts = "x0_maxiter",             \* the caller's starting point replaces the rule below
      has_bounds |-> meth \in BoundsMethods,
      n_cons    |-> IF HasCons(s.cons) THEN 1 ELSE 0,
      con_type  |-> IF s.cons = "eq" THEN "eq" ELSE IF HasCons(s.cons) THEN "ineq" ELSE "none",
      fun_sign  |-> 1,             \* fun = +f for minimise f, and = -(-f) = +f for maximise -f : the solver always minimises f
      fun_offset |-> IF s.oform = "plain" THEN 0 ELSE IF s.sense = "min" THEN 3 ELSE -3,   \* fun = f + offset
-     x0        |-> X0Rule(s.bp[1], s.bp[2])]
+     x0        |-> X0Rule(s.bp[1], s.bp[2]),
+     x0others  |-> IF s.others = "box" THEN X0Rule(R(-2), R(4)) ELSE IF s.others = "ub" THEN X0Rule(NoneQ, R(4)) ELSE X0Rule(NoneQ, NoneQ)]
 
 VARIABLES st, pred
 Init == st \in Structs /\ pred = Wire(st)
